@@ -64,7 +64,7 @@ type genParams struct {
 	long        bool // long-lived fence: the fence under test has no COMMANDS/MATCH/WHERE so that most writes notify
 }
 
-var idPool = []string{"a1", "a2", "b1", "b2", "c1"}
+var idPool = []string{"a1", "a2", "b1", "b2", "c1", "A1"}
 
 // every MATCH pattern admits the closing sequence's id "a1"
 var matchPool = []string{"a*", "*1", "[ab]*", "?1", "a1", "*"}
@@ -143,6 +143,7 @@ type gobj struct {
 type generator struct {
 	rt     *rapid.T
 	cs     *Case
+	cur    []FenceSpec // definitions currently in force (re-definitions change them)
 	frames []frame
 	objs   [2]map[string]*gobj
 	stepNo int
@@ -254,6 +255,60 @@ func (g *generator) add(s Step) {
 	}
 }
 
+// redefine appends a re-definition of one of the other fences under its name.
+func (g *generator) redefine() {
+	rt := g.rt
+	if g.cur == nil {
+		g.cur = append([]FenceSpec(nil), g.cs.Fences...)
+	}
+	if len(g.cur) < 2 {
+		return
+	}
+	// prefer a fence whose MATCH pattern has letters (the case-sensitive operand)
+	i := intn(rt, "redef-fence", 1, len(g.cur)-1)
+	for k := 1; k < len(g.cur); k++ {
+		if hasLetter(g.cur[k].Match) && pct(rt, "redef-prefer") < 50 {
+			i = k
+			break
+		}
+	}
+	old := g.cur[i]
+	ns := old
+	variant := pick(rt, "redef-variant", []string{"identical", "keyword-case", "match-case", "match-case", "detect", "area"})
+	if variant == "match-case" && !hasLetter(old.Match) {
+		variant = "detect"
+	}
+	switch variant {
+	case "match-case":
+		ns.Match = swapCase(old.Match)
+	case "detect":
+		ns.Detect = detectSubset(intn(rt, "redef-detect", 0, 31))
+	case "area":
+		fr := g.frames[i]
+		ok := false
+		for try := 0; try < 4 && !ok; try++ {
+			clat, clon := fr.denorm(unif(rt, "redef-u", -0.6, 0.6), unif(rt, "redef-v", -0.6, 0.6))
+			ns.Area = drawArea(rt, "redef-area", old.Area.Kind, clat, clon, fr.hy*unif(rt, "redef-size", 0.6, 1.6))
+			nf := ns.Area.frame()
+			ok = true
+			for _, o := range g.objs[old.Key] {
+				if o.spatial && nf.inside(o.lat, o.lon) == unsure {
+					ok = false
+				}
+			}
+		}
+		if !ok {
+			ns.Area = old.Area
+			variant = "detect"
+			ns.Detect = detectSubset(intn(rt, "redef-detect", 0, 31))
+		}
+	}
+	g.cur[i] = ns
+	g.frames[i] = ns.Area.frame()
+	spec := ns
+	g.cs.Steps = append(g.cs.Steps, Step{Op: "redef", Key: old.Key, Fence: i, Variant: variant, Spec: &spec})
+}
+
 func (g *generator) nextQ() Field {
 	g.stepNo++
 	return Field{"q", g.stepNo}
@@ -357,6 +412,9 @@ func genCase(rt *rapid.T, detectIdx int, p genParams) Case {
 		if pct(rt, "step-key") < 8 {
 			key = 1
 		}
+		if len(cs.Fences) > 1 && pct(rt, "redef") < 7 {
+			g.redefine()
+		}
 		id := pick(rt, "id", ids)
 		old := g.objs[key][id]
 		op := pct(rt, "op")
@@ -405,6 +463,9 @@ func genCase(rt *rapid.T, detectIdx int, p genParams) Case {
 	g.closing()
 	if pct(rt, "pipeline") < 35 {
 		cs.Pipeline = pick(rt, "burst", []int{4, 16, 64})
+	}
+	if !p.long && intn(rt, "hook-fault", 0, 63) == 0 {
+		cs.HookFault = true // costs 0.5 s (the hook's retry pause) per faulted hook
 	}
 	return cs
 }
@@ -484,6 +545,8 @@ func stepArgs(s Step, key string) [][]string {
 		return a
 	}
 	switch s.Op {
+	case "redef":
+		return nil // sent by runCase itself, between bursts
 	case "set", "setex":
 		a := fields([]string{"SET", key, s.ID})
 		if s.Op == "setex" {
@@ -527,6 +590,7 @@ type fenceRun struct {
 	hookSt   *stream
 	live     *liveObs
 	events   int
+	curTok   []string // the definition tokens sent last
 }
 
 func mustOK(v t38.Value, err error, what string) {
@@ -582,6 +646,7 @@ func runCase(t failer, c *ev.Collector, cs Case) (info caseInfo) {
 		runs[i] = r
 		name := fmt.Sprintf("%s:f%d", prefix, i)
 		tok := f.tokens(r.key)
+		r.curTok = tok
 		if f.Obs == "all3" || f.Obs == "chan" {
 			r.chanName = name + ":c"
 			v, err := ctl.Do(append([]string{"SETCHAN", r.chanName}, tok...)...)
@@ -591,6 +656,7 @@ func runCase(t failer, c *ev.Collector, cs Case) (info caseInfo) {
 		if f.Obs == "all3" || f.Obs == "hook" {
 			r.hookName = name + ":h"
 			r.hookSt = recv.register(r.hookName)
+			r.hookSt.faultArmed = cs.HookFault
 			v, err := ctl.Do(append([]string{"SETHOOK", r.hookName, recv.url}, tok...)...)
 			mustOK(v, err, "SETHOOK "+strings.Join(tok, " "))
 		}
@@ -702,7 +768,7 @@ func runCase(t failer, c *ev.Collector, cs Case) (info caseInfo) {
 			// send the next burst; a step that waits for an expiry travels alone
 			end := n
 			for end < len(cs.Steps) && end-n < batch {
-				if cs.Steps[end].Op == "setex" {
+				if cs.Steps[end].Op == "setex" || cs.Steps[end].Op == "redef" {
 					if end == n {
 						end++
 					}
@@ -830,6 +896,57 @@ func runCase(t failer, c *ev.Collector, cs Case) (info caseInfo) {
 				delete(objs, id)
 				addDel(n, s, id, o)
 			}
+		case "redef":
+			r := runs[s.Fence]
+			if s.Fence == 0 || s.Spec == nil || r.live != nil {
+				panic("harness: redef of the fence under test")
+			}
+			tok := s.Spec.tokens(r.key)
+			switch s.Variant {
+			case "identical":
+				tok = r.curTok
+			case "keyword-case":
+				tok = flipKeywordCase(tok)
+			}
+			if r.hookSt != nil {
+				// replacing a webhook while its sender goroutine still holds a
+				// batch could reorder deliveries: let the stream catch up first
+				deadline := time.Now().Add(waitBudget())
+				for {
+					raw := r.hookSt.snapshot()
+					got := make([]gmsg, len(raw))
+					for k, m := range raw {
+						got[k] = parseMsg(m)
+					}
+					if matchStream(r.expHook, got).Status != "partial" || time.Now().After(deadline) {
+						break
+					}
+					r.hookSt.wait(time.Until(deadline))
+				}
+			}
+			var replies []t38.Value
+			if r.chanName != "" {
+				v, err := ctl.Do(append([]string{"SETCHAN", r.chanName}, tok...)...)
+				mustOK(v, err, "re-SETCHAN "+strings.Join(tok, " "))
+				replies = append(replies, v)
+			}
+			if r.hookName != "" {
+				v, err := ctl.Do(append([]string{"SETHOOK", r.hookName, recv.url}, tok...)...)
+				mustOK(v, err, "re-SETHOOK "+strings.Join(tok, " "))
+				replies = append(replies, v)
+			}
+			info.labels["redef:"+s.Variant] = true
+			if s.Variant == "identical" {
+				for _, v := range replies {
+					if v.Kind != ':' || v.Int != 0 {
+						fail("redef:identical-not-noop", fmt.Sprintf("step %d: re-issuing the identical definition %s of fence #%d answered %s, want 0 (impl-mirrored: unchanged definition)", n, strings.Join(tok, " "), s.Fence, v))
+					}
+				}
+			}
+			obs := r.spec.Obs
+			r.spec, r.curTok = *s.Spec, tok
+			r.spec.Obs = obs
+			r.fr = r.spec.Area.frame()
 		case "drop":
 			if len(objs) > 0 {
 				st.keys[s.Key] = map[string]*mobj{}
@@ -967,6 +1084,9 @@ func runCase(t failer, c *ev.Collector, cs Case) (info caseInfo) {
 	for i, r := range runs {
 		if r.hookSt != nil {
 			waitStream(i, r, "webhook", r.hookSt, r.expHook, r.hookName)
+			if r.hookSt.fired() {
+				info.labels["webhook-endpoint-failed-once-mid-batch"] = true
+			}
 		}
 		if r.live != nil {
 			waitStream(i, r, "live", r.live.st, r.expLive, "")
@@ -1102,6 +1222,9 @@ func TestC05_Matrix(t *testing.T) {
 		for ki, kind := range areaKinds {
 			for _, acc := range accepts {
 				cs := matrixCase(d, ki, kind, acc)
+				// default detection, no COMMANDS: the endpoint fails once on the
+				// second notification of a write (6 cases, 0.5 s retry pause each)
+				cs.HookFault = d == 0 && acc == nil
 				c.Case()
 				info := runCase(t, c, cs)
 				for l := range info.labels {
@@ -1198,8 +1321,8 @@ func longLivedCase(kind string, detect []string, limit, cycles int) Case {
 	}
 	main := FenceSpec{Cmd: cmd, Area: a, Detect: detect, Limit: limit, Obs: "all3"}
 	// two more long-lived fences over the same area with other options
-	o1 := FenceSpec{Cmd: cmd, Area: a, Detect: []string{"inside"}, Limit: 3, Obs: "chan"}
-	o2 := FenceSpec{Cmd: cmd, Area: a, Detect: []string{"enter", "exit"}, Obs: "hook"}
+	o1 := FenceSpec{Cmd: cmd, Area: a, Detect: []string{"inside"}, Match: "a*", Limit: 3, Obs: "chan"}
+	o2 := FenceSpec{Cmd: cmd, Area: a, Detect: []string{"enter", "exit"}, Match: "a1", Obs: "hook"}
 	cs := Case{Fences: []FenceSpec{main, o1, o2}}
 	fr := a.frame()
 	q := 0
@@ -1213,8 +1336,52 @@ func longLivedCase(kind string, detect []string, limit, cycles int) Case {
 		q++
 		cs.Steps = append(cs.Steps, Step{Op: "fset", Key: 0, ID: "a1", Fields: []Field{{"q", q}}, Phase: "closing"})
 	}
+	// re-definitions of the two other fences under their names while they are in
+	// use: identical re-issue and keyword-case spelling (no change), MATCH
+	// pattern differing only by letter case (must replace: a* no longer
+	// matches id a1 when written A*), and back, another DETECT list, another area
+	cur := []FenceSpec{main, o1, o2}
+	redef := func(i int, variant string, change func(f *FenceSpec)) {
+		ns := cur[i]
+		if change != nil {
+			change(&ns)
+		}
+		cur[i] = ns
+		spec := ns
+		cs.Steps = append(cs.Steps, Step{Op: "redef", Key: 0, Fence: i, Variant: variant, Spec: &spec, Phase: "closing"})
+	}
+	flipMatch := func(f *FenceSpec) { f.Match = swapCase(f.Match) }
 	at(-3, 0.2) // new-out
 	for c := 0; c < cycles; c++ {
+		switch c {
+		case 2:
+			redef(1, "identical", nil)
+		case 4:
+			redef(1, "keyword-case", nil)
+			redef(2, "identical", nil)
+		case 6:
+			redef(1, "match-case", flipMatch) // A*: silent from here on
+		case 8:
+			redef(2, "match-case", flipMatch) // A1: silent
+		case 10:
+			redef(1, "match-case", flipMatch) // a* again
+		case 12:
+			redef(2, "match-case", flipMatch)
+			redef(1, "detect", func(f *FenceSpec) { f.Detect = []string{"inside", "outside"} })
+		case 14:
+			redef(1, "area", func(f *FenceSpec) {
+				switch f.Area.Kind {
+				case "point", "circle":
+					f.Area.R = math.Round(f.Area.R * 1.2)
+				case "bounds", "object":
+					f.Area.HH, f.Area.HW = round7(f.Area.HH*1.2), round7(f.Area.HW*0.85)
+				default:
+					f.Detect = []string{"inside", "exit"} // tile / hash areas have no free parameter
+				}
+			})
+		case 16:
+			redef(2, "keyword-case", nil)
+		}
 		j := 0.002 * float64(c%50)
 		at(0.1+j, 0.15) // out-in
 		at(-0.2, 0.1+j) // in-in
